@@ -71,6 +71,24 @@ Definition kinds_svg2paths : list kind :=
 (* names of transform definitions, as _parse_transform_substr distinguishes them *)
 Inductive tname := NMatrix | NTranslate | NScale | NRotate | NSkewX | NSkewY | NUnknown.
 
+(* Which variant of the code is modelled.  Every flag is one place where the
+   pinned code departs from the specification; false = the pinned code
+   (commit 12ec128), true = the repaired behaviour.  The correspondence check
+   determines on every run, by probing the implementation with the witness of
+   the corresponding `_refuted` Example, which variant /repo is, and
+   instantiates the model with it. *)
+Record cfg := mkCfg {
+  f_rect_attr : bool;     (* rect2pathd reads rx/ry from the attributes of an Element too *)
+  f_rect_clamp : bool;    (* rect2pathd clamps rx/ry to half the width/height *)
+  f_line_default : bool;  (* svg2paths: missing x1/y1/x2/y2 of a line default to 0 *)
+  f_group_empty : bool;   (* paths_from_group: a childless group Element is a group *)
+  f_sax_line : bool;      (* line2pathd accepts the attribute dict of SaxDocument *)
+  f_sax_order : bool;     (* SaxDocument multiplies parent.dot(child) *)
+  f_sax_keep : bool       (* SaxDocument.flatten_all_paths keeps the transformed path *)
+}.
+Definition pinned : cfg := mkCfg false false false false false false false.
+Definition repaired : cfg := mkCfg true true true true true true true.
+
 Section SvgTree.
   Context {K : Type} (N : Num K).
 
@@ -383,19 +401,22 @@ Section SvgTree.
      dict (svg2paths, SaxDocument) this tests the keys; when it is an
      xml.etree Element (Document) `in` iterates over the CHILDREN of the
      element, so it is False whatever the attributes are. *)
-  Definition rect_has_rx (via_dict : bool) (a : attrs) : bool :=
-    if via_dict then
+  Definition rect_has_rx (c : cfg) (via_dict : bool) (a : attrs) : bool :=
+    if via_dict || f_rect_attr c then
       match a_rx a, a_ry a with None, None => false | _, _ => true end
     else false.
 
-  Definition rect2pathd (via_dict : bool) (a : attrs) : list cmd :=
+  Definition rect2pathd (c : cfg) (via_dict : bool) (a : attrs) : list cmd :=
     let x := odef 0 (a_x a) in let y := odef 0 (a_y a) in
     let w := odef 0 (a_w a) in let h := odef 0 (a_h a) in
-    if rect_has_rx via_dict a then
+    if rect_has_rx c via_dict a then
       (* rx = ry or 0. when rx is None (a present value is a non-empty string:
          truthy), and symmetrically *)
       let rx := match a_rx a with Some v => v | None => odef 0 (a_ry a) end in
       let ry := match a_ry a with Some v => v | None => rx end in
+      (* repaired: rx, ry = min(rx, w / 2), min(ry, h / 2) *)
+      let rx := if f_rect_clamp c then (if ltb N (half w) rx then half w else rx) else rx in
+      let ry := if f_rect_clamp c then (if ltb N (half h) ry then half h else ry) else ry in
       [CM (x + rx, y);
        CL (x + w - rx, y);
        CA rx ry 0 false true (x + w, y + ry);
@@ -412,30 +433,34 @@ Section SvgTree.
   (* the three ways a line element is converted *)
   Inductive route := RDocument | RSvg2paths | RSax.
 
-  Definition line2pathd (rt : route) (a : attrs) : option (list cmd) :=
+  Definition line2pathd (c : cfg) (rt : route) (a : attrs) : option (list cmd) :=
+    let with_defaults :=
+      Some [CM (odef 0 (a_x1 a), odef 0 (a_y1 a)); CL (odef 0 (a_x2 a), odef 0 (a_y2 a))] in
     match rt with
-    | RDocument =>            (* l.attrib.get('x1', '0') ... on an Element *)
-        Some [CM (odef 0 (a_x1 a), odef 0 (a_y1 a)); CL (odef 0 (a_x2 a), odef 0 (a_y2 a))]
-    | RSvg2paths =>           (* inline: l['x1'] ... : KeyError when absent *)
+    | RDocument => with_defaults   (* l.attrib.get('x1', '0') ... on an Element *)
+    | RSvg2paths =>           (* inline: l['x1'] ... : KeyError when absent; repaired: l.get('x1', '0') *)
+        if f_line_default c then with_defaults else
         match a_x1 a, a_y1 a, a_x2 a, a_y2 a with
         | Some x1, Some y1, Some x2, Some y2 => Some [CM (x1, y1); CL (x2, y2)]
         | _, _, _, _ => None
         end
-    | RSax => None            (* line2pathd(values): dict has no .attrib: AttributeError *)
+    | RSax =>                 (* line2pathd(values): dict has no .attrib: AttributeError;
+                                 repaired: l.get('x1', '0') works for dicts and Elements *)
+        if f_sax_line c then with_defaults else None
     end.
 
   Definition via_dict (rt : route) : bool :=
     match rt with RDocument => false | _ => true end.
 
   (* converter followed by parse_path *)
-  Definition convert (rt : route) (k : kind) (a : attrs) : option (list seg) :=
+  Definition convert (c : cfg) (rt : route) (k : kind) (a : attrs) : option (list seg) :=
     match k with
     | KPath => Some (a_d a)
     | KCircle | KEllipse => option_map interp (ellipse2pathd a)
-    | KLine => option_map interp (line2pathd rt a)
+    | KLine => option_map interp (line2pathd c rt a)
     | KPolyline => option_map interp (polyline2pathd a false)
     | KPolygon => option_map interp (polyline2pathd a true)
-    | KRect => Some (interp (rect2pathd (via_dict rt) a))
+    | KRect => Some (interp (rect2pathd c (via_dict rt) a))
     end.
 
   (* ---------------------------------------------------------------- *)
@@ -564,17 +589,17 @@ Section SvgTree.
 
   Definition result : Type := (nat * list seg * mat)%type.   (* id, segments, path.transform *)
 
-  Definition doc_entry (o : out) : option result :=
+  Definition doc_entry (c : cfg) (o : out) : option result :=
     let '(k, a, M) := o in
-    match convert RDocument k a with
+    match convert c RDocument k a with
     | None => None
     | Some segs => match apply_tf M segs with
                    | None => None
                    | Some s' => Some (a_id a, s', M)
                    end
     end.
-  Definition doc_paths (root : node) : option (list result) :=
-    mapM doc_entry (flatten_stack root).
+  Definition doc_paths (c : cfg) (root : node) : option (list result) :=
+    mapM (doc_entry c) (flatten_stack root).
   (* Document.paths_from_group(group) with an Element: the first test is
      `all(isinstance(s, str) for s in group)`, which iterates over the CHILDREN
      of the element; for a group without children it is vacuously true, the
@@ -591,13 +616,15 @@ Section SvgTree.
                 | Shape _ _ _ => None
                 end
     end.
-  Definition paths_from_group (root : node) (target : position) : list out :=
-    match node_at root target with
-    | Some (Group _ []) => from_group root []
-    | _ => from_group root target
-    end.
-  Definition doc_paths_from_group (root : node) (target : position) : option (list result) :=
-    mapM doc_entry (paths_from_group root target).
+  Definition paths_from_group (c : cfg) (root : node) (target : position) : list out :=
+    if f_group_empty c then from_group root target
+    else match node_at root target with
+         | Some (Group _ []) => from_group root []
+         | _ => from_group root target
+         end.
+  Definition doc_paths_from_group (c : cfg) (root : node) (target : position)
+    : option (list result) :=
+    mapM (doc_entry c) (paths_from_group c root target).
 
   (* reference for paths_from_group: walk down to the group, multiplying the
      transforms of its strict ancestors, then flatten it *)
@@ -636,8 +663,8 @@ Section SvgTree.
     end.
   Definition harvest (root : node) : list (kind * attrs) :=
     flat_map (fun key => filter (fun ka => kind_eqb (fst ka) key) (preorder root)) kinds_svg2paths.
-  Definition svg2paths_model (root : node) : option (list (nat * list seg)) :=
-    mapM (fun ka => option_map (fun s => (a_id (snd ka), s)) (convert RSvg2paths (fst ka) (snd ka)))
+  Definition svg2paths_model (c : cfg) (root : node) : option (list (nat * list seg)) :=
+    mapM (fun ka => option_map (fun s => (a_id (snd ka), s)) (convert c RSvg2paths (fst ka) (snd ka)))
          (harvest root).
 
   (* ---------------------------------------------------------------- *)
@@ -655,60 +682,64 @@ Section SvgTree.
 
   (* "if 'transform' in attrs": an absent attribute leaves matrix as it is
      (None stays None); a present one gives  transform_matrix.dot(matrix) *)
-  Definition sax_matrix (m : option mat) (tf : list titem) : option mat :=
+  Definition odefm (m : option mat) : mat := match m with Some M => M | None => mI end.
+  Definition sax_matrix (c : cfg) (m : option mat) (tf : list titem) : option mat :=
     match tf with
     | [] => m
-    | _ => Some (mmul (parse_tf tf) (match m with Some M => M | None => mI end))
+    | _ => if f_sax_order c
+           then Some (mmul (odefm m) (parse_tf tf))      (* repaired: matrix.dot(transform_matrix) *)
+           else Some (mmul (parse_tf tf) (odefm m))      (* pinned: transform_matrix.dot(matrix) *)
     end.
 
   Definition saxout : Type := (kind * attrs * option mat)%type.
 
-  Fixpoint sax_loop (evs : list event) (stack : list (option mat)) (matrix : option mat)
+  Fixpoint sax_loop (c : cfg) (evs : list event) (stack : list (option mat)) (matrix : option mat)
            (tree : list saxout) : list saxout :=
     match evs with
     | [] => tree
-    | EStartG tf :: r => sax_loop r (matrix :: stack) (sax_matrix matrix tf) tree
+    | EStartG tf :: r => sax_loop c r (matrix :: stack) (sax_matrix c matrix tf) tree
     | EStartS k a tf :: r =>
-        let m := sax_matrix matrix tf in
-        sax_loop r (matrix :: stack) m (tree ++ [(k, a, m)])
+        let m := sax_matrix c matrix tf in
+        sax_loop c r (matrix :: stack) m (tree ++ [(k, a, m)])
     | EEnd :: r =>
         match stack with
-        | v :: st => sax_loop r st v tree
+        | v :: st => sax_loop c r st v tree
         | [] => tree                         (* stack.pop() on an empty list: not reachable *)
         end
     end.
-  Definition sax_tree (root : node) : list saxout := sax_loop (sax_events root) [] None [].
+  Definition sax_tree (c : cfg) (root : node) : list saxout :=
+    sax_loop c (sax_events root) [] None [].
 
   (* the same as a structural recursion (Proofs/SvgTree.v: sax_loop_rec) *)
-  Fixpoint sax_rec (n : node) (m : option mat) : list saxout :=
+  Fixpoint sax_rec (c : cfg) (n : node) (m : option mat) : list saxout :=
     match n with
-    | Shape k a tf => [(k, a, sax_matrix m tf)]
-    | Group tf kids => let m' := sax_matrix m tf in flat_map (fun c => sax_rec c m') kids
+    | Shape k a tf => [(k, a, sax_matrix c m tf)]
+    | Group tf kids => let m' := sax_matrix c m tf in flat_map (fun ch => sax_rec c ch m') kids
     end.
 
   (* sax_parse converts every element while parsing: a converter that raises
      aborts the constructor *)
-  Definition sax_parse (root : node) : option (list (nat * list seg * option mat)) :=
+  Definition sax_parse (c : cfg) (root : node) : option (list (nat * list seg * option mat)) :=
     mapM (fun o : saxout => let '(k, a, m) := o in
-             option_map (fun s => (a_id a, s, m)) (convert RSax k a))
-         (sax_tree root).
+             option_map (fun s => (a_id a, s, m)) (convert c RSax k a))
+         (sax_tree c root).
 
   (* flatten_all_paths: transform(parsed_path, matrix) is evaluated and its
      RESULT IS DISCARDED; the untransformed path is returned.  The call still
      raises when transform raises. *)
-  Definition sax_flatten (root : node) : option (list (nat * list seg)) :=
-    match sax_parse root with
+  Definition sax_flat_entry (c : cfg) (e : nat * list seg * option mat) : option (nat * list seg) :=
+    let '(i, s, m) := e in
+    match m with
+    | None => Some (i, s)
+    | Some M => match apply_tf M s with
+                | Some s' => Some (i, if f_sax_keep c then s' else s)   (* pinned: result discarded *)
+                | None => None
+                end
+    end.
+  Definition sax_flatten (c : cfg) (root : node) : option (list (nat * list seg)) :=
+    match sax_parse c root with
     | None => None
-    | Some l =>
-        mapM (fun e : nat * list seg * option mat =>
-                let '(i, s, m) := e in
-                match m with
-                | None => Some (i, s)
-                | Some M => match apply_tf M s with
-                            | Some _ => Some (i, s)
-                            | None => None
-                            end
-                end) l
+    | Some l => mapM (sax_flat_entry c) l
     end.
 
 End SvgTree.
